@@ -502,6 +502,7 @@ func run(c *vh.Ctx) {
 	rn.seedValidBodies()
 	rn.rawSuite(n, thorough)
 	rn.flagMatrix()
+	rn.versionSweep()
 	rn.identSweep()
 	rn.importSuite(n)
 	rn.jsonSuite(n)
